@@ -18,7 +18,10 @@ def run(seed, prop):
 
 
 def main():
-    ids = sys.argv[1:] or sorted(d for d in os.listdir(SEEDED) if os.path.isfile(os.path.join(SEEDED, d, 'meta.json')))
+    if sys.argv[1:] == ['--readme-only']:
+        ids = []
+    else:
+        ids = sys.argv[1:] or sorted(d for d in os.listdir(SEEDED) if os.path.isfile(os.path.join(SEEDED, d, 'meta.json')))
     det_file = os.path.join(SEEDED, 'detection.json')
     det = json.load(open(det_file)) if os.path.exists(det_file) else {}
     for sid in ids:
